@@ -207,7 +207,7 @@ func (w *ntWorld) runWord(b Beh, tr *Tracer) error {
 		}
 		o := J{"ev": "act", "case": b.ID, "i": i, "a": st.A, "c": st.C, "ch": st.Ch, "v": st.V, "http": -1, "status": 0, "skipped": false, "panic": false}
 		cs := conns[st.C]
-		needConn := st.A == "Close" || st.A == "Sub" || st.A == "Unsub" || st.A == "Remote" || st.A == "LocalRace" || st.A == "RemoteSub" || st.A == "RemoteUnsub"
+		needConn := st.A == "Close" || st.A == "Sub" || st.A == "Unsub" || st.A == "Remote" || st.A == "Getter" || st.A == "LocalRace" || st.A == "RemoteSub" || st.A == "RemoteUnsub"
 		if needConn && cs == nil {
 			o["skipped"] = true
 		} else {
@@ -240,6 +240,19 @@ func (w *ntWorld) runWord(b Beh, tr *Tracer) error {
 					v = st.V == 1
 				}
 				o["http"], o["status"] = w.put(cs, J{"aid": ch.aid, "iid": ch.ch.ID, "value": v})
+			case "Getter":
+				// the application answers this connection's read through a getter installed for the duration of the read
+				ch := w.chars[st.Ch]
+				var v interface{} = st.V
+				if st.Ch != "z" {
+					v = st.V == 1
+				}
+				ch.ch.OnValueGet(func() interface{} { return v })
+				m, err := cs.c.Do("GET", fmt.Sprintf("/characteristics?id=%d.%d", ch.aid, ch.ch.ID), "", nil)
+				ch.ch.OnValueGet(nil)
+				if err == nil && m != nil {
+					o["http"] = m.Status
+				}
 			case "RemoteSub", "RemoteUnsub":
 				// one PUT entry carrying both a value and ev
 				ch := w.chars[st.Ch]
